@@ -69,9 +69,52 @@ def model_value(s: str) -> float:
     return float(s)
 
 
+def _has_quantifier(terms) -> bool:
+    seen, stack = set(), list(terms)
+    while stack:
+        t = stack.pop()
+        if t.get_id() in seen:
+            continue
+        seen.add(t.get_id())
+        if z3.is_quantifier(t):
+            return True
+        stack.extend(t.children())
+    return False
+
+
 def z3_check(hyps: Sequence, goal, timeout_ms=None, tactic: Optional[str] = None, seed=0):
     t0 = time.time()
     timeout_ms = timeout_ms or Z3_TIMEOUT_MS
+    if not tactic and _has_quantifier(list(hyps) + [goal]):
+        # quantified VCs: a pre-pass with E-matching only (model-based instantiation off).  'unsat' is sound whatever the instantiation
+        # strategy; anything else falls through to the default configuration below, which is the one that can produce counter-models.
+        conj, stack = [], [goal]
+        while stack:
+            g = stack.pop()
+            if z3.is_and(g):
+                stack.extend(g.children())
+            else:
+                conj.append(g)
+        ok = True
+        budget = time.time() + min(timeout_ms, 20000) / 1000.0
+        for g in conj:          # each conjunct of the goal on its own: the negated conjunction is a disjunction E-matching handles badly
+            s = z3.Solver()
+            s.set("timeout", int(max(500, min(8000, (budget - time.time()) * 1000))))
+            s.set("auto_config", False)
+            s.set("smt.mbqi", False)
+            s.set("random_seed", int(seed))
+            for h in hyps:
+                s.add(h)
+            s.add(z3.Not(g))
+            try:
+                if s.check() != z3.unsat:
+                    ok = False
+                    break
+            except z3.Z3Exception:
+                ok = False
+                break
+        if ok:
+            return Verdict("discharged", "z3:ematching", time.time() - t0)
     if tactic:
         s = z3.Then(z3.Tactic("simplify"), z3.Tactic("solve-eqs"), z3.Tactic(tactic)).solver() \
             if tactic != "default" else z3.Solver()
